@@ -145,7 +145,9 @@ def check_ref_implies_def(ctx, gates):
     n_type_edges = [0]
     cache = {}
     reported = set()
-    for crate in ("wow_login_messages", "wow_world_messages", "wow_world_base"):
+    ext_items = {}   # crate name -> {path with the crate's own name as first segment: eff}
+    n_cross = [0]
+    for crate in ("wow_world_base", "wow_login_messages", "wow_world_messages"):
         src = os.path.join(REPO, crate, "src")
         recs = {f: r for f, r in gates.items() if f.startswith(src + os.sep)}
         try:
@@ -172,6 +174,7 @@ def check_ref_implies_def(ctx, gates):
                         item_eff[path] = None  # defined twice under different cfgs (reported by cfg.item-level)
                     else:
                         item_eff[path] = e
+        ext_items[crate] = {crate + k[len("crate"):]: v for k, v in item_eff.items() if v is not None}
         F = facts(crate)
         eff = {}
         for fn in F.all("fn"):
@@ -182,6 +185,14 @@ def check_ref_implies_def(ctx, gates):
             if len(c) > 1 and abs(line - (fn["line"] or 0)) > 12:
                 continue
             eff[fn["path"]] = e
+        feature_edges = {}
+        try:
+            import tomllib
+            with open(os.path.join(REPO, crate, "Cargo.toml"), "rb") as fh:
+                feature_edges = {k_: list(v_) for k_, v_ in tomllib.load(fh).get("features", {}).items()}
+        except Exception as e:  # noqa
+            ctx.violate("cfg.ref-implies-def", f"{crate}|cargo-toml", f"{crate}/Cargo.toml: feature table not readable ({e})")
+
         def implies(ec, ed):
             k = (tuple(ec), tuple(ed))
             if k not in cache:
@@ -203,10 +214,45 @@ def check_ref_implies_def(ctx, gates):
                     cache[k] = None
             return cache[k]
 
+        def implies_cross(ec, ed):
+            """ec over this crate's features, ed over wow_world_base's; the feature edges of Cargo.toml translate one into the other"""
+            k = ("x", tuple(ec), tuple(ed))
+            if k not in cache:
+                try:
+                    pc, pd = [G.parse_pred(t) for t in ec], [G.parse_pred(t) for t in ed]
+                    at = set()
+                    for p_ in pc:
+                        G.atoms(p_, at)
+                    at = sorted(at | {"feature=" + f for f in feature_edges})
+                    bad = None
+                    if len(at) <= 14:
+                        for combo in itertools.product((False, True), repeat=len(at)):
+                            env = dict(zip(at, combo))
+                            if not all(G.ev(p_, env) for p_ in pc):
+                                continue
+                            on = {a[len("feature="):] for a, c in env.items() if c and a.startswith("feature=")}
+                            # closure over own-feature edges, then the dependency's features
+                            changed = True
+                            while changed:
+                                changed = False
+                                for f in list(on):
+                                    for g_ in feature_edges.get(f, ()):
+                                        if "/" not in g_ and g_ not in on:
+                                            on.add(g_)
+                                            changed = True
+                            benv = {"feature=" + g_.split("/", 1)[1]: True for f in on for g_ in feature_edges.get(f, ()) if g_.startswith("wow_world_base/")}
+                            if not all(G.ev(p_, benv) for p_ in pd):
+                                bad = sorted(on)
+                                break
+                    cache[k] = bad
+                except G.GateError:
+                    cache[k] = None
+            return cache[k]
+
         # references to type-like items anywhere in a function body or signature
         def strings(x, out):
             if isinstance(x, str):
-                if "crate::" in x:
+                if "crate::" in x or "wow_world_base::" in x:
                     out.add(x)
             elif isinstance(x, list):
                 for y in x:
@@ -228,6 +274,25 @@ def check_ref_implies_def(ctx, gates):
                         if cand in item_eff:
                             seen_items.add(cand)
                             break
+            # references into wow_world_base: its cfgs are over its own features, which this crate's features switch on through Cargo.toml
+            if crate == "wow_world_messages" and "wow_world_base" in ext_items:
+                base = ext_items["wow_world_base"]
+                seen_ext = set()
+                for sref in ss:
+                    for pth in _re.findall(r"wow_world_base::[A-Za-z0-9_:]+", sref):
+                        segs = pth.split("::")
+                        for k in range(len(segs), 1, -1):
+                            cand = "::".join(segs[:k])
+                            if cand in base:
+                                seen_ext.add(cand)
+                                break
+                for it in seen_ext:
+                    n_cross[0] += 1
+                    bad = implies_cross(ec, base[it])
+                    if bad is not None and (fn["path"], it) not in reported:
+                        reported.add((fn["path"], it))
+                        ctx.violate("cfg.ref-implies-def", f"{crate}|{fn['path']}|{it}", f"{crate}: {fn['path']} (compiled under {ec}) refers to {it}, which wow_world_base compiles only under {base[it]}: with the "
+                                    f"wow_world_messages features [{', '.join(bad) or 'none'}] Cargo.toml does not switch the needed wow_world_base feature on, so that configuration does not build", fn["file"], fn["line"])
             for it in seen_items:
                 ed = item_eff[it]
                 if ed is None:
@@ -278,7 +343,7 @@ def check_ref_implies_def(ctx, gates):
                     ctx.violate("cfg.ref-implies-def", f"{crate}|{caller}|{callee}", f"{crate}: {caller} (compiled under {ec}) calls {callee} (compiled only under {ed}): with features [{', '.join(bad) or 'none'}] the caller exists "
                                 "but the callee does not, so that configuration does not build", fnr["file"] if fnr else None, fnr["line"] if fnr else None)
     ctx.rule("cfg.ref-implies-def", n_edges, floor=20000, note=f"intra-crate call edges between functions whose effective cfgs are known, plus {n_type_edges[0]} references from function bodies/signatures to gated structs / enums / consts / traits "
-             f"({len(cache)} distinct cfg pairs): the referrer's condition implies the referent's")
+             f"and {n_cross[0]} references into wow_world_base translated through the feature edges of Cargo.toml ({len(cache)} distinct cfg pairs): the referrer's condition implies the referent's")
 
 
 def run(ctx):
